@@ -172,10 +172,15 @@ def run(ctx):
     for _ in range(100 if quick else 1500):
         a = rng.choice(SPECIAL) if rng.random() < 0.3 else rng.uniform(-math.pi, math.pi)
         b = rng.choice(SPECIAL) if rng.random() < 0.3 else rng.uniform(-math.pi, math.pi)
-        ro_cases.append({"fn": "readout_lr", "a": hexf(a), "b": hexf(b)})
+        kind = rng.choice(["prod", "prod", "angles", "a_only", "b_only", "trunc"])
+        if kind == "a_only":
+            b = 0.0
+        if kind == "b_only":
+            a = 0.0
+        ro_cases.append({"fn": "readout_lr", "a": hexf(a), "b": hexf(b), "kind": kind})
     impl = run_impl(ro_cases)
     for c, r in zip(ro_cases, impl):
-        ctx.count(c, nontrivial=True, bucket=c["fn"])
+        ctx.count(c, nontrivial=True, bucket=c["fn"] + ("/" + c["kind"] if "kind" in c else ""))
         if "exc" in r:
             ctx.fail("readout", c, f"raised {r['exc']}: {r.get('msg','')}")
             continue
